@@ -227,8 +227,15 @@ def run(cfg, tier, seed):
             rep.known(sig); continue
         if sig in reported: continue
         def failing(c):
-            _run_case_files(cfg, dv, None, work, c, "o")
-            return any(s == sig for s, _ in case_oracle(cfg, c, os.path.join(work, "shrink_o.ops.impl")))
+            # a reduced op list can be ill-formed (an op that defines something a later op names was removed): the harness
+            # answers bad-op and an oracle written for well-formed cases may raise; such a candidate simply does not fail
+            try:
+                _run_case_files(cfg, dv, None, work, c, "o")
+                return any(s == sig for s, _ in case_oracle(cfg, c, os.path.join(work, "shrink_o.ops.impl")))
+            except CheckError:
+                raise
+            except Exception:
+                return False
         if cfg.timing_sensitive(sig, detail) and not any(failing(cops) for _ in range(3)):
             # a call that timed out once (machine under load) and completes on three standalone re-runs of the
             # same case is not a replayable violation: counted in the evidence, not reported
@@ -249,8 +256,13 @@ def run(cfg, tier, seed):
         impl, mod = _run_case_files(cfg, dv, model, work, small, "d")
         found = None
         for cand in [small] + cfg.neighbours(small):
-            _run_case_files(cfg, dv, None, work, cand, "n")
-            bad = [(s, d) for s, d in case_oracle(cfg, cand, os.path.join(work, "shrink_n.ops.impl")) if s not in known]
+            try:
+                _run_case_files(cfg, dv, None, work, cand, "n")
+                bad = [(s, d) for s, d in case_oracle(cfg, cand, os.path.join(work, "shrink_n.ops.impl")) if s not in known]
+            except CheckError:
+                raise
+            except Exception:
+                bad = []      # an ill-formed neighbour (see `failing`)
             if bad: found = (cand, bad[0]); break
         if found:
             rep.violation(lib.save_replay(cfg.prop, found[0]),
